@@ -277,11 +277,19 @@ def size_range_function(repo, rep, fname, pname, where):
   okall = True
   for n, call in ranges:
     lo = norm(rd2.expand(n, call.args[0])[0])
-    hi = norm(rd2.expand(n, call.args[1])[0])
+    stop = rd2.expand(n, call.args[1])[0]
+    hi = norm(stop)
+    hi_inner = None
+    if isinstance(stop, ast.BinOp) and isinstance(stop.op, ast.Add):
+      if au.is_const(stop.right, 1):
+        hi_inner = stop.left
+      elif au.is_const(stop.left, 1):
+        hi_inner = stop.right
     lo_ok = re.match(r'(max\()?%s%s\[0\]' % (re.escape(P), pname), lo) is not None and not lo.startswith('min(')
-    hi_ok = re.match(r'(min\()?%s%s\[1\]' % (re.escape(P), pname), hi) is not None and hi.endswith('+ 1') and not hi.startswith('max(')
-    if hi_ok and hi.startswith('min('):
-      hi_ok = hi.endswith(') + 1')
+    hi_ok = False
+    if hi_inner is not None:
+      ht = norm(hi_inner)
+      hi_ok = ht == '%s%s[1]' % (P, pname) or (ht.startswith('min(') and ('%s%s[1]' % (P, pname)) in [norm(a) for a in hi_inner.args]) if isinstance(hi_inner, (ast.Call, ast.Subscript)) else False
     rep.check(lo_ok, 'R1/sizes', '%s: smallest size is at least %s[0]' % (where, pname), f.qualname, 'range(%s, ...)' % lo,
               '%s: sizes start at `%s`, which does not respect the lower bound %s[0]' % (where, lo, pname), f.loc(call))
     rep.check(hi_ok, 'R1/inclusive', '%s: largest size is %s[1] inclusive (range stop is bound + 1)' % (where, pname), f.qualname, 'range(..., %s)' % hi,
